@@ -1,6 +1,6 @@
 SPECIFICATION Spec
-CONSTANTS Routers <- QuickRouters
-          SyncRouters = {}
+CONSTANTS Routers <- AllRouters
+          SyncRouters = {"eth", "bsc", "ont", "cosmos"}
           Gen = {"g1", "g2"}
           Bad = {"bad"}
           Shape <- ShapeGuard
